@@ -13,7 +13,9 @@ Open Scope Z_scope.
    [pm_attr].  The code's observations of pixel_array.dtype are explicit boolean parameters of the translation,
    instantiated here by the model's reading of the numpy dtype [d]:
        dtype.kind == 'f' / 'u'  = kind_of d is KF / KU        dtype.name == 'float32' / 'float64' = d is DF32 / DF64
-       dtype == np.uint8 / np.uint16 = d is DU8 / DU16 *)
+       dtype == np.uint8 / np.uint16 = d is DU8 / DU16
+   (observation parameters sorted by name: dtype == np.uint16, dtype == np.uint8, kind == 'f', kind == 'u',
+   name == 'float32', name == 'float64') *)
 Definition kind_f (d : dtype) : bool := match kind_of d with KF => true | _ => false end.
 Definition kind_u (d : dtype) : bool := match kind_of d with KU => true | _ => false end.
 Definition is_f32 (d : dtype) : bool := match d with DF32 => true | _ => false end.
@@ -28,7 +30,7 @@ Definition tag_attr (e : E_PixelDataType) : attr :=
   end.
 
 Theorem tint_pm_pixel_data_type_C19 : forall d,
-  bind (t_pm_pixel_data_type (kind_f d) (is_f32 d) (is_f64 d) (kind_u d) (is_u8 d) (is_u16 d))
+  bind (t_pm_pixel_data_type (is_u16 d) (is_u8 d) (kind_f d) (kind_u d) (is_f32 d) (is_f64 d))
        (fun '(e, name) => Ok (tag_attr e, name))
   = bind (pm_attr d) (fun aw => Ok (fst aw, attr_name (fst aw))).
 Proof. intros d. destruct d; reflexivity. Qed.
